@@ -14,3 +14,8 @@ open Emboss.View
 #print axioms C01_sizeCovers_of_plain
 #print axioms C01_ok_switch_eq_naive
 #print axioms C01_locality_partial
+#print axioms C01_G_refines_R_partial
+#print axioms C01_R_reported_by_G_partial
+#print axioms C01_G_equals_R_partial
+#print axioms C01_R_size_is_max_end_partial
+#print axioms C01_constants_partial
